@@ -222,3 +222,79 @@ def sequences(elems):
             if len(set(s)) == k:
                 out.append(s)
     return out
+
+
+# -------------------------------------------------------------------------------------------
+# 'related elements' family: bases {p, r(p)} + completion
+# -------------------------------------------------------------------------------------------
+
+UNIVERSE = {"poly": ALL10, "right": HMASK, "top": VMASK}
+
+
+def related(p):
+    """[(relation name, q)] with q != p: the seven non-identity symmetries of p (inverse first) and
+    its distinct one-point deletions - the elements from which a per-call shortcut could want to
+    derive the answer for p (or the other way round)."""
+    out = []
+    names = ["inverse"] + [s for s in R.SYMS if s not in ("id", "inverse")]
+    for s in names:
+        q = R.apply_sym(s, p)
+        if q != p:
+            out.append((s, q))
+    seen = set()
+    for i in range(len(p)):
+        q = R.delete_point(p, i)
+        if q not in seen and len(q) >= 1:
+            seen.add(q)
+            out.append(("delete%d" % i, q))
+    return out
+
+
+def _pop(m):
+    return bin(m).count("1")
+
+
+_COMPLETION = {}
+_POOL4 = None
+
+
+def completion(kind, X, T):
+    """A completion of a pair whose joint type mask is T, for the class X of the universe `kind`
+    (poly: ten classes, right / top: four): a list C of permutations of length <= 4, none in X,
+    that meets every class of the universe except X and the classes in T.  Greedy and
+    deterministic: repeatedly take the pool element that shares the fewest classes with T (so the
+    pair stays the sole witness of its own classes where short patterns allow it), then covers the
+    most still-missing classes, then comes first in (length, lex) order.
+    verdict(pair + C) is then True  <=>  X in T."""
+    global _POOL4
+    U = UNIVERSE[kind]
+    key = (kind, X, T & U)
+    C = _COMPLETION.get(key)
+    if C is not None:
+        return C
+    if _POOL4 is None:
+        _POOL4 = [p for n in range(1, 5) for p in R.perms(n)]
+    xb = BIT[X]
+    needed = U & ~xb & ~T
+    C = []
+    while needed:
+        best, bestkey = None, None
+        for i, c in enumerate(_POOL4):
+            t = types_cached(c)
+            if t & xb or not t & needed:
+                continue
+            k = (_pop(t & T & U), -_pop(t & needed), i)
+            if bestkey is None or k < bestkey:
+                best, bestkey = c, k
+        assert best is not None, (kind, X, T)
+        C.append(best)
+        needed &= ~types_cached(best)
+    _COMPLETION[key] = C
+    return C
+
+
+def arrangements(p, q, C):
+    """The pair inside the list: adjacent both ways, separated by the completion both ways, after
+    the completion both ways."""
+    C = list(C)
+    return [[p, q] + C, [q, p] + C, [p] + C + [q], [q] + C + [p], C + [p, q], C + [q, p]]
